@@ -19,7 +19,7 @@ def uhb(x):
 
 def run_display(seed, tier):
     """p_display: the description heuristics and what the display reporter writes, against Model/Display."""
-    n = 250 if tier == "quick" else 12000
+    n = 250 if tier == "quick" else 30000
     r = common.run_streams([("p_display", [seed, n, vlib.BUILD + "/display-tmp"])])
     items = [([b, args, idx], req, impl) for (b, args, idx, req, impl) in r.cases]
     mism, _ = common.compare(items, None)
